@@ -284,6 +284,19 @@ def task_multigrid():
            lambda r: (z3.Implies(z3.BoolVal(r.state['var'].fields['exit_message'] == 'CONVERGED'), final_tok(r) < tol * ref)) if broke(r) else None, pre)
     clause(col, 'M2b_not_below_tolerance_is_never_reported_converged', results,
            lambda r: (z3.Implies(z3.Not(final_tok(r) < tol * ref), z3.BoolVal(r.state['var'].fields['exit_message'] != 'CONVERGED'))) if broke(r) else None, pre)
+    # the reference of the convergence test (|source|, set by solve) and the tolerance are never re-assigned by multigrid itself:
+    # neither before the loop (all set-up paths, from C05) nor in a cycle
+    fixed = ('l2_refe', 'tol')
+
+    def frame(r):
+        v = r.state['var'] if isinstance(getattr(r, 'state', None), dict) and 'var' in r.state else None
+        return not any(e['kind'] == 'setattr' and e['attr'] in fixed and (v is None or e['obj'] is v or getattr(e['obj'], 'cls', '') == 'MGParameters')
+                       for e in r.events)
+    clause(col, 'M6_reference_error_and_tolerance_are_not_reassigned_in_a_cycle', results, frame, pre)
+    clause(col, 'M6b_reference_error_and_tolerance_are_not_reassigned_before_the_first_cycle', resA, frame)
+    canary(col, 'canary/every_exit_of_the_fine_loop_is_converged', results,
+           lambda r: z3.BoolVal(r.state['var'].fields['exit_message'] == 'CONVERGED') if broke(r) else None, pre)
+    canary(col, 'canary/stored_error_always_below_tolerance', results, lambda r: (final_tok(r) < tol * ref) if broke(r) else None, pre)
     clause(col, 'M3_loop_left_only_through_terminate_or_exception', results,
            lambda r: (r.state['ssl'] and r.value.typ == '_ConvergenceError') if r.outcome == 'raise' else True, pre)
     clause(col, 'M4_source_never_written__child_gets_its_own_fields', results,
@@ -385,6 +398,10 @@ def task_krylov(cycle):
     raised = lambda r: any(x[0] == 'precond-raised' for x in r.state['log'])
     clause(col, 'K1_converged_iff_scipy_reports_success_and_no_convergence_error', res,
            lambda r: z3.BoolVal(msg(r) == 'CONVERGED') == z3.And(info == 0, z3.BoolVal(not raised(r))), sample=True)
+    canary(col, 'canary/krylov_always_converged', res, lambda r: msg(r) == 'CONVERGED')
+    if cycle is not None:
+        canary(col, 'canary/converged_whenever_info_is_zero_even_if_the_preconditioner_failed', res,
+               lambda r: z3.BoolVal(msg(r) == 'CONVERGED') == (info == 0))
     clause(col, 'K2_positive_info_is_max_iteration__negative_info_is_an_error_text', res,
            lambda r: z3.And(z3.Implies(z3.And(info > 0, z3.BoolVal(not raised(r))), z3.BoolVal(msg(r) == 'MAX. ITERATION REACHED, NOT CONVERGED')),
                             z3.Implies(z3.Or(info < 0, z3.BoolVal(raised(r))), z3.BoolVal(isinstance(msg(r), cx.Opaque) or (isinstance(msg(r), str) and msg(r) not in ('', 'CONVERGED'))))))
@@ -553,6 +570,8 @@ def task_solve(sslsolver, cycle, supplied):
         return inf['exit'] == int(var.fields['exit_message'] != 'CONVERGED') and inf['exit_message'] is var.fields['exit_message'] \
             or (inf['exit'] == int(var.fields['exit_message'] != 'CONVERGED') and inf['exit_message'] == var.fields['exit_message'])
     clause(col, 'S1_exit_status_zero_iff_message_CONVERGED', res, s1, pre)
+    canary(col, 'canary/solve_always_reports_success', res,
+           lambda r: (info_of(r)['exit'] == 0) if r.outcome == 'return' and info_of(r) is not None else None, pre)
 
     # S2/S4/S8: success certifies the object handed back
     def s2(r):
